@@ -2,7 +2,7 @@ use c18::tree::{Carry, Case, Form, Header, Item, Node, PushVia};
 use vcore::proptest::prelude::*;
 use vcore::Level;
 
-const RULE: &str = "a case is a program as data: a span tree (<=20 span nodes, depth <=5; forms: attribute on sync/async fn, new_span! with Frame::call / enter / in_future, guard: parameter, and four own-frame hand-off forms where the frame returned by new_span! — for sampled and for unsampled (rejected) spans — is moved to a fresh thread and entered there by call / in_fn / enter, or polled through in_future alternately on fresh threads and the awaiting thread) with emit! events, Traceparent::current()/SpanCtxt::current checks and yields, plus pushed incoming headers (unparsable -> documented fallback, valid sampled/unsampled of another trace, same trace id as the active one, all-zero, half-zero; through Traceparent::push, push(traceparent, tracestate) or header text), next-service hops (format current header, parse and push it on a fresh thread, run child spans there), same-service thread hops (carrying nothing / Frame::current(rt.ctxt()) / Traceparent::current().push() / both; by call or in_future) and joins of async tasks with a generated poll schedule (optionally each task wrapped in Frame::current(rt.ctxt()).in_future, and then optionally with polls migrating to fresh threads); the sampler is a generated decision table indexed by call number that records its argument, or no sampler at all is installed (TraceparentFilter::new(), the plain setup(): every locally started trace is sampled and unsampled traces only arrive through incoming headers); the filter is TraceparentFilter optionally AND in_sampled_trace_filter(b). Run on a private runtime on a fresh thread and judged against a model of the active traceparent. Non-trivial = at least two root spans whose sampler decisions differ, or a pushed incoming header, or a (thread or service) hop.";
+const RULE: &str = "a case is a program as data: a span tree (<=20 span nodes, depth <=5; forms: attribute on sync/async fn, new_span! with Frame::call / enter / in_future, guard: parameter, and four own-frame hand-off forms where the frame returned by new_span! — for sampled and for unsampled (rejected) spans — is moved to a fresh thread and entered there by call / in_fn / enter, or polled through in_future alternately on fresh threads and the awaiting thread) with emit! events, Traceparent::current()/SpanCtxt::current checks and yields, plus pushed incoming headers (unparsable -> documented fallback, valid sampled/unsampled of another trace, same trace id as the active one, all-zero, half-zero; through Traceparent::push, push(traceparent, tracestate) or header text), next-service hops (format current header, parse and push it on a fresh thread, run child spans there), same-service thread hops (carrying nothing / Frame::current(rt.ctxt()) / Traceparent::current().push() / both; by call or in_future) planned panics (quiet resume_unwind) that unwind through any of these scopes up to a catch_unwind (explicit Catch item, in async code around every poll; or the top of the hop / service / hand-off thread) after which the same thread is used on; and joins of async tasks with a generated poll schedule (optionally each task wrapped in Frame::current(rt.ctxt()).in_future, and then optionally with polls migrating to fresh threads); the sampler is a generated decision table indexed by call number that records its argument, or no sampler at all is installed (TraceparentFilter::new(), the plain setup(): every locally started trace is sampled and unsampled traces only arrive through incoming headers); the filter is TraceparentFilter optionally AND in_sampled_trace_filter(b). Run on a private runtime on a fresh thread and judged against a model of the active traceparent. Non-trivial = at least two root spans whose sampler decisions differ, or a pushed incoming header, or a (thread or service) hop.";
 
 const ASSUMPTIONS: [&str; 8] = [
     "ids of sampled spans are read from their own span events; the order of sampler calls is read from the log positions of span starts (never predicted); ids inside unsampled traces are learned from the first observation inside the span and must then stay stable and be restored",
@@ -32,7 +32,7 @@ fn form() -> impl Strategy<Value = Form> {
 }
 
 fn leaf() -> impl Strategy<Value = Item> {
-    prop_oneof![3 => Just(Item::Event), 3 => Just(Item::Check), 2 => Just(Item::Yield)]
+    prop_oneof![3 => Just(Item::Event), 3 => Just(Item::Check), 2 => Just(Item::Yield), 1 => Just(Item::Panic)]
 }
 
 fn flags() -> impl Strategy<Value = u8> {
@@ -64,6 +64,7 @@ fn body(depth_left: u32) -> BoxedStrategy<Vec<Item>> {
         6 => leaf(),
         9 => (form(), inner.clone()).prop_map(|(form, items)| Item::Span(Node { form, items })),
         3 => (header(), prop_oneof![Just(PushVia::Method), Just(PushVia::Function), Just(PushVia::Text)], inner.clone()).prop_map(|(header, via, items)| Item::Push { header, via, items }),
+        3 => inner.clone().prop_map(|items| Item::Catch { items }),
         1 => inner.clone().prop_map(|items| Item::Service { items }),
         1 => (prop_oneof![1 => Just(Carry::Nothing), 2 => Just(Carry::FrameCurrent), 2 => Just(Carry::TraceparentPush), 1 => Just(Carry::Both)], any::<bool>(), inner.clone())
             .prop_map(|(carry, fut, items)| Item::Hop { carry, fut, items }),
@@ -74,7 +75,9 @@ fn body(depth_left: u32) -> BoxedStrategy<Vec<Item>> {
 }
 
 /// Constructive bound on the number of span nodes and their nesting.
-fn limit(items: &mut Vec<Item>, budget: &mut usize, depth: usize) {
+/// … and on planned panics: one that nothing would catch (`caught` false: no `Catch` around it within the
+/// same join task, and not inside a hop / service / hand-off body, whose thread catches it) becomes an event.
+fn limit(items: &mut Vec<Item>, budget: &mut usize, depth: usize, caught: bool) {
     for it in items.iter_mut() {
         match it {
             Item::Span(n) => {
@@ -82,18 +85,38 @@ fn limit(items: &mut Vec<Item>, budget: &mut usize, depth: usize) {
                     *it = Item::Event;
                 } else {
                     *budget -= 1;
-                    limit(&mut n.items, budget, depth + 1);
+                    limit(&mut n.items, budget, depth + 1, caught || n.form.is_handoff());
                 }
             }
-            Item::Push { items, .. } | Item::Service { items } | Item::Hop { items, .. } => limit(items, budget, depth),
+            Item::Panic if !caught => *it = Item::Event,
+            Item::Catch { items } => limit(items, budget, depth, true),
+            Item::Push { items, .. } => limit(items, budget, depth, caught),
+            Item::Service { items } | Item::Hop { items, .. } => limit(items, budget, depth, true),
             Item::Join { tasks, .. } => {
                 for t in tasks {
-                    limit(t, budget, depth)
+                    limit(t, budget, depth, false)
                 }
             }
             _ => {}
         }
     }
+}
+
+/// A thread that has caught a panic and is used on: `Catch{ scope{ .., Panic } }` in front of the rest of
+/// the program, where the scope is a span (any form) or an incoming header frame, possibly nested.
+fn panic_prologue() -> impl Strategy<Value = Option<Item>> {
+    let dying_span = |items: Vec<Item>| (form(), Just(items)).prop_map(|(form, items)| Item::Span(Node { form, items }));
+    let tail = prop::collection::vec(leaf(), 0..2).prop_map(|mut v| {
+        v.push(Item::Panic);
+        v
+    });
+    let scope = prop_oneof![
+        3 => tail.clone().prop_flat_map(dying_span),
+        2 => (header(), prop_oneof![Just(PushVia::Method), Just(PushVia::Function), Just(PushVia::Text)], tail.clone()).prop_map(|(header, via, items)| Item::Push { header, via, items }),
+        2 => (header(), tail.clone().prop_flat_map(dying_span)).prop_map(|(header, span)| Item::Push { header, via: PushVia::Method, items: vec![span] }),
+        2 => (form(), tail.prop_flat_map(dying_span)).prop_map(|(form, span)| Item::Span(Node { form, items: vec![Item::Check, span] })),
+    ];
+    prop_oneof![2 => Just(None), 1 => scope.prop_map(|s| Some(Item::Catch { items: vec![s] }))]
 }
 
 fn case() -> impl Strategy<Value = Case> {
@@ -109,11 +132,16 @@ fn case() -> impl Strategy<Value = Case> {
             1 => prop_oneof![Just((true, Some(true))), Just((true, Some(false)))],
         ],
         any::<u64>(),
-        body(7),
+        (panic_prologue(), body(7)).prop_map(|(prologue, mut items)| {
+            if let Some(p) = prologue {
+                items.insert(0, p);
+            }
+            items
+        }),
     )
         .prop_map(|(sampler, sampler_default, (no_sampler, in_sampled), rng, mut items)| {
             let mut budget = 20;
-            limit(&mut items, &mut budget, 0);
+            limit(&mut items, &mut budget, 0, false);
             let (sampler, sampler_default) = if no_sampler { (Vec::new(), true) } else { (sampler, sampler_default) };
             Case { no_sampler, sampler, sampler_default, in_sampled, rng, items }
         })
@@ -128,6 +156,12 @@ fn main() {
         s.require("roots-with-differing-decisions", 200);
         s.require("next-service-with-spans", 100);
         s.require("thread-hop-carried", 100);
+        s.require("exit:panic-sync-call", 200);
+        s.require("exit:panic-incoming-frame", 100);
+        s.require("exit:panic-async", 100);
+        s.require("exit:panic-enter-guard", 50);
+        s.require("exit:panic-unsampled-scope", 100);
+        s.require("after-panic:new-root-trace", 200);
         s.require("own-frame-handoff-unsampled-nonroot-with-descendants", 100);
         s.require("own-frame-handoff-sampled-with-descendants", 100);
         s.require("no-sampler-unsampled-incoming-with-spans", 100);
